@@ -535,7 +535,7 @@ def run(ctx, ck):
               're-validates the wire after moving its ends' if ok_ else
               '%s changes the end points without reaching the zero-length validation (%s): a wire collapsed by the '
               'operation (scale factor 0) goes on into segmentation and ends in an uncaught exception' % (g_.qual, sorted(V_)))
-    ck.floor('Wire methods that can change the length of the wire', n_rv, 3)
+    ck.floor('Wire methods that can change the length of the wire', n_rv, 2)
     ck.undecided += ['implicit exceptions of numeric origin (ZeroDivisionError, LinAlgError, overflow)',
                      'NaN / infinity in the output', 'None-valued options reaching arithmetic '
                      '(--radial-count without --radial-radius)']
